@@ -1,7 +1,220 @@
-//! C04 — not built yet.
-use vcore::Ctx;
+//! C04 — merged fields resolve once; mutation root fields run one at a time in document order.
+use crate::execcmp::*;
+use std::collections::HashMap;
+use vcore::det::run_with_gates;
+use vcore::{Case, Ctx, Src};
+use vgql::ast::*;
+use vgql::gensch::*;
+use vgql::gentyped::*;
+use vgql::print::print_plain;
+use vgql::refexec::{execute, show_path, Quirks, Seg};
+use vgql::sch::Sch;
+use vgql::world::*;
+use vschemas::dynbuild::build_dynamic;
+use vschemas::rt::{Ev, Rt};
+use vschemas::z::{build_z, z_sch, ZSchema};
 
-pub fn run(_ctx: &mut Ctx) {
-    eprintln!("C04: check not built yet");
-    std::process::exit(2);
+pub enum Flavour<'a> {
+    Static(&'a ZSchema),
+    Dynamic,
+}
+
+/// execute with every resolver gated; `pick` chooses which pending gate opens next
+pub fn exec_gated(fl: &Flavour, sch: &Sch, rt: &Rt, text: &str, td: &TypedDoc, mut pick: impl FnMut(&[(usize, String)]) -> usize) -> Result<(async_graphql::Response, Vec<String>), String> {
+    rt.set_gated(true);
+    let req = request(text, &td.vars, td.op_name.as_deref());
+    let fut: std::pin::Pin<Box<dyn std::future::Future<Output = async_graphql::Response> + Send>> = match fl {
+        Flavour::Static(z) => {
+            let z = (*z).clone();
+            let req = req.data(rt.clone());
+            Box::pin(async move { z.execute(req).await })
+        }
+        Flavour::Dynamic => {
+            let schema = build_dynamic(sch, rt, |b| b).map_err(|e| format!("HARNESS: schema does not build: {}", e))?;
+            Box::pin(async move { schema.execute(req).await })
+        }
+    };
+    run_with_gates(fut, &rt.gates, |p| pick(p), 100_000).ok_or_else(|| "execution stalled: no pending gate and not finished (deadlock) or step bound exceeded".to_string())
+}
+
+pub fn exec_plain(fl: &Flavour, sch: &Sch, rt: &Rt, text: &str, td: &TypedDoc) -> Result<async_graphql::Response, String> {
+    rt.set_gated(false);
+    let req = request(text, &td.vars, td.op_name.as_deref());
+    match fl {
+        Flavour::Static(z) => Ok(vcore::det::block_on(z.execute(req.data(rt.clone())))),
+        Flavour::Dynamic => {
+            let schema = build_dynamic(sch, rt, |b| b).map_err(|e| format!("HARNESS: schema does not build: {}", e))?;
+            Ok(vcore::det::block_on(schema.execute(req)))
+        }
+    }
+}
+
+fn once_case(s: &mut dyn Src, fl: &Flavour, fixed: Option<&Sch>, tcfg: &TypedCfg, f1_open: bool) -> Case {
+    let gen;
+    let sch: &Sch = match fixed {
+        Some(s) => s,
+        None => {
+            gen = gen_sch(s, &SchCfg::default());
+            &gen
+        }
+    };
+    let dynamic = matches!(fl, Flavour::Dynamic);
+    let world = gen_world(sch, s, &WorldCfg { null_composite_items: !dynamic, ..WorldCfg::default() });
+    let mut td = gen_typed_doc(sch, s, tcfg);
+    let text = print_plain(&mut td.doc);
+    let head = format!("{}world: {}\nquery: {}\nvariables: {}", if fixed.is_none() { format!("schema: {}\n", show_sch(sch)) } else { String::new() }, world.show(), text, vars_json(&td.vars));
+    let want = match execute(sch, &td.doc, td.op_name.as_deref(), &td.vars, &world, Quirks::default()) {
+        Ok(w) => w,
+        Err(e) => return Case::fail(head, format!("HARNESS: reference executor: {:?}", e)),
+    };
+    let rt = Rt::new(world.clone());
+    let resp = match exec_plain(fl, sch, &rt, &text, &td) {
+        Ok(r) => r,
+        Err(e) => return Case::fail(head, e),
+    };
+    if let Err(e) = compare(&want, &resp) {
+        return Case::fail(head, format!("merged result differs: {}", e));
+    }
+    let mut starts: HashMap<String, usize> = HashMap::new();
+    for ev in rt.take_log() {
+        if let Ev::Start { path, .. } = ev {
+            *starts.entry(path).or_insert(0) += 1;
+        }
+    }
+    let repeated = want.touches.iter().filter(|t| t.occurrences_all_spreads > 1).count();
+    let mut known = false;
+    let mut bad: Option<String> = None;
+    for t in &want.touches {
+        let p = show_path(&t.path);
+        let n = starts.get(&p).copied().unwrap_or(0);
+        if n != 1 && bad.is_none() {
+            bad = Some(format!("resolver of `{}` at path {} started {} times (response key collected from {} field nodes)", t.field, p, n, t.occurrences));
+        }
+    }
+    // nothing may run that the reference did not execute
+    for (p, n) in &starts {
+        if !want.touches.iter().any(|t| &show_path(&t.path) == p) {
+            return Case::fail(head, format!("resolver at path {} ran ({}x) although the field is not in the collected field set", p, n));
+        }
+    }
+    if let Some(b) = bad {
+        // does the deviation match the quirk of C04-F1 exactly (one execution per occurrence, every spread followed)?
+        let predicted = vgql::refexec::starts_per_occurrence(sch, &td.doc, td.op_name.as_deref(), &td.vars, &world).unwrap_or_default();
+        if f1_open && predicted == starts {
+            known = true;
+        } else {
+            return Case::fail(head, b);
+        }
+    }
+    let c = if known { Case::known(head, vec!["C04-F1".into()]) } else { Case::pass(head) };
+    c.nontrivial(repeated > 0).class_if(repeated > 0, "repeated-response-key").class(if dynamic { "once-dynamic" } else { "once-static" }).class_if(td.stats.named_fragments > 0, "through-named-fragment")
+}
+
+fn serial_case(s: &mut dyn Src, fl: &Flavour, sch: &Sch, tcfg: &TypedCfg, orders: usize) -> Case {
+    let dynamic = matches!(fl, Flavour::Dynamic);
+    let world = gen_world(sch, s, &WorldCfg { null_composite_items: !dynamic, ..WorldCfg::default() });
+    let mut td = gen_typed_doc(sch, s, tcfg);
+    let text = print_plain(&mut td.doc);
+    let head = format!("world: {}\nquery: {}\nvariables: {}", world.show(), text, vars_json(&td.vars));
+    let want = match execute(sch, &td.doc, td.op_name.as_deref(), &td.vars, &world, Quirks::default()) {
+        Ok(w) => w,
+        Err(e) => return Case::fail(head, format!("HARNESS: reference executor: {:?}", e)),
+    };
+    // root response keys in document (grouped) order
+    let mut roots: Vec<String> = vec![];
+    for t in &want.touches {
+        if let (1, Some(Seg::Key(k))) = (t.path.len(), t.path.first()) {
+            if !roots.contains(k) {
+                roots.push(k.clone());
+            }
+        }
+    }
+    let gated_sub = want.touches.iter().any(|t| t.path.len() > 1);
+    for o in 0..orders {
+        let rt = Rt::new(world.clone());
+        // order o: derive the pick sequence from the source so that it shrinks
+        let mut picks: Vec<usize> = vec![];
+        let r = exec_gated(fl, sch, &rt, &text, &td, |p| {
+            let k = if o == 0 { 0 } else { s.choose(p.len()) };
+            picks.push(k);
+            k
+        });
+        let (resp, opened) = match r {
+            Ok(x) => x,
+            Err(e) => return Case::fail(head, e),
+        };
+        if let Err(e) = compare(&want, &resp) {
+            return Case::fail(head, format!("gate order {:?}: {}", opened, e));
+        }
+        // seriality: everything under root key i finishes before anything under root key i+1 starts
+        let log = rt.take_log();
+        let root_of = |path: &str| -> Option<usize> {
+            let first = path.split('.').next().unwrap_or("");
+            roots.iter().position(|r| r == first)
+        };
+        let mut max_started: Option<usize> = None;
+        let mut open_count: HashMap<usize, i64> = HashMap::new();
+        for ev in &log {
+            match ev {
+                Ev::Start { path, .. } => {
+                    if let Some(r) = root_of(path) {
+                        if let Some(m) = max_started {
+                            if r < m {
+                                return Case::fail(head, format!("gate order {:?}: resolver at {} (root field #{}) started after root field #{} had started", opened, path, r, m));
+                            }
+                        }
+                        // all earlier roots must be completely finished
+                        for (er, cnt) in &open_count {
+                            if *er < r && *cnt > 0 {
+                                return Case::fail(head, format!("gate order {:?}: {} started while root field #{} still had {} unfinished resolvers", opened, path, er, cnt));
+                            }
+                        }
+                        max_started = Some(max_started.map_or(r, |m| m.max(r)));
+                        *open_count.entry(r).or_insert(0) += 1;
+                    }
+                }
+                Ev::Finish { path, .. } => {
+                    if let Some(r) = root_of(path) {
+                        *open_count.entry(r).or_insert(0) -= 1;
+                    }
+                }
+            }
+        }
+    }
+    Case::pass(head).nontrivial(roots.len() >= 2 && gated_sub).class_if(roots.len() >= 2, "mutation-2+-root-fields").class_if(gated_sub, "gated-sub-resolvers").class(if dynamic { "serial-dynamic" } else { "serial-static" })
+}
+
+pub fn run(ctx: &mut Ctx) {
+    ctx.rule = "(a) queries and mutations with repeated response keys (un-aliased duplicates, cloned fields, fragments, a fragment spread twice) on static Z, its dynamic mirror and random \
+                dynamic schemas: per response path the resolver log must show exactly one start, nothing outside the collected field set may run, and the merged data must equal the \
+                reference; (b) mutations with gated resolvers under generated gate-opening orders: every resolver below root field i finishes before any resolver of root field i+1 starts. \
+                Non-trivial = a response key with >=2 occurrences (a) / >=2 root fields with gated sub-resolvers (b); distinct by rendered case".into();
+    ctx.assume("resolver starts are observed through the harness's logging resolvers (every field of Z / of dynamic schemas logs); __typename is not a resolver");
+    let f1 = ctx.open("C04-F1");
+    let n = ctx.tier.pick(6_000, 200_000);
+    let z = build_z(|b| b);
+    let zsch = z_sch(&z);
+    let mut cfg = crate::c02::typed_cfg(ctx, "C04");
+    cfg.ops = vec![OpKind::Query, OpKind::Mutation];
+    cfg.max_depth = 3;
+    // main search: the construct of the open finding (repeated keys) is excluded; the probe streams keep it
+    let mut main = cfg.clone();
+    if f1 {
+        main.repeats = false;
+        ctx.excluded("C04-F1");
+    }
+    ctx.stream("once-static", n, 600, |s| once_case(s, &Flavour::Static(&z), Some(&zsch), &main, f1));
+    ctx.stream("once-dynamic-mirror", n / 2, 600, |s| once_case(s, &Flavour::Dynamic, Some(&zsch), &main, f1));
+    ctx.stream("once-dynamic-random", n / 2, 600, |s| once_case(s, &Flavour::Dynamic, None, &main, f1));
+    if f1 {
+        ctx.stream("probe-repeated-static", n / 6, 600, |s| once_case(s, &Flavour::Static(&z), Some(&zsch), &cfg, true));
+        ctx.stream("probe-repeated-dynamic", n / 6, 600, |s| once_case(s, &Flavour::Dynamic, None, &cfg, true));
+    }
+    let mut mcfg = main.clone();
+    mcfg.ops = vec![OpKind::Mutation];
+    mcfg.max_depth = 2;
+    mcfg.fragments = true;
+    let orders = ctx.tier.pick(6, 24);
+    ctx.stream("serial-static", n / 6, 900, |s| serial_case(s, &Flavour::Static(&z), &zsch, &mcfg, orders));
+    ctx.stream("serial-dynamic", n / 6, 900, |s| serial_case(s, &Flavour::Dynamic, &zsch, &mcfg, orders));
 }
